@@ -380,3 +380,85 @@ def rng_for(prop, seed):
 
 def hexs(bs):
     return bytes(bs).hex() if len(bs) else "-"
+
+
+def generic_replay(prop, path):
+    """./check <id> --replay <file>: re-run exactly the recorded input on /repo's current tree
+    and on the Model; exit 1 if the violation reproduces, 0 if it does not.  Replays without a
+    concrete input (failed obligations) re-run the property's quick check and look for the same
+    key.  Evidence files are not touched."""
+    import importlib
+    if not os.path.isabs(path) and not os.path.exists(path):
+        path = os.path.join(VERIF, path)
+    d = json.load(open(path))
+    key = d.get("key", "?")
+    kind = d.get("kind", "")
+    print("replaying %s (%s)" % (key, kind))
+    if "ops" in d and isinstance(d["ops"], list):
+        spec, exe = build_harness(d.get("flavor", "asan"))
+        text = "case 0\n" + "\n".join(d["ops"]) + "\n"
+        rc, out, err = run_c(exe, text)
+        lean = run_lean(text)
+        print("--- real code (rc=%d)\n%s--- model\n%s" % (rc, out, lean))
+        if err.strip():
+            print("--- stderr\n" + err[-1500:])
+        bad = rc != 0 or out.split() != lean.split()
+        print("REPRODUCED" if bad else "not reproduced on the current tree")
+        return 1 if bad else 0
+    if kind == "listener":
+        import examples
+        L = importlib.import_module("props.listeners")
+        L.spec()
+        which = d["listener"]
+        exe = examples.build_listener(which)
+        dg = [bytes.fromhex(h) if h != "-" else b"" for h in d["datagrams_hex"]]
+        rc, lines, err = L.run_real(exe, d["argv"], dg)
+        print("--- real listener (rc=%d)\n%s" % (rc, "\n".join(lines)))
+        bad = rc != 0 or not lines or lines[-1] != "blocked"
+        if which != "crf":
+            modeargs = {"u": "u" if "-u" in d["argv"] else "r", "f": "f" if "--fd" in d["argv"] else "c"}
+            per = L.model_outputs(which, modeargs, dg)
+            exp_can, exp_out = L.expected_from_model(which, per)
+            print("--- model\n%s" % per)
+            if which == "can":
+                bad = bad or [l for l in lines if l.startswith("can")] != exp_can
+            else:
+                bad = bad or b"".join(bytes.fromhex(l[7:].strip()) for l in lines if l.startswith("stdout ")) != exp_out
+        if err.strip():
+            print("--- stderr\n" + err[-1500:])
+        print("REPRODUCED" if bad else "not reproduced on the current tree")
+        return 1 if bad else 0
+    if kind == "tunnel":
+        import examples
+        exe = examples.build_can()
+        ensure_driver()
+        m = d["mode"]
+        txt = "\n".join(d["input"]) + "\n"
+        env = dict(os.environ)
+        env.update(SAN_ENV)
+        p = subprocess.run([exe, m["cf"], m["transport"], m["can"], str(m["frames_per_packet"])], input=txt, capture_output=True, text=True, env=env, timeout=120)
+        l = subprocess.run([DRIVER], input="tun %s %s %s %d\n" % (m["cf"], m["transport"], m["can"], m["frames_per_packet"]) + txt, capture_output=True, text=True, timeout=120)
+        print("--- real talker+listener (rc=%d)\n%s--- model\n%s" % (p.returncode, p.stdout, l.stdout))
+        want = ["out " + x.split(" ", 1)[1] for x in d["input"] if x.startswith("frame ")]
+        got = [x for x in p.stdout.splitlines() if x.startswith("out")]
+        bad = p.returncode != 0 or p.stdout.split() != l.stdout.split() or got != want[:len(got)]
+        print("REPRODUCED" if bad else "not reproduced on the current tree")
+        return 1 if bad else 0
+    if kind == "headers-do-not-combine":
+        lang = d.get("language", "c")
+        src = '#include "%s"\n#include "%s"\nint main(void){return 0;}\n' % (d["first"], d["second"])
+        cc = ["gcc", "-std=gnu99", "-x", "c"] if lang == "c" else ["g++", "-std=gnu++17", "-x", "c++"]
+        r = subprocess.run(cc + ["-fsyntax-only", "-w", "-I", os.path.join(REPO, "include"), "-"], input=src, capture_output=True, text=True)
+        print(r.stderr[:1500])
+        if r.returncode != 0:
+            print("REPRODUCED (does not compile)")
+            return 1
+        # compiles: the recorded failure was a changed value/layout — decided by the full pair run below
+    # no directly replayable input: re-run the quick check and look for the same key
+    import check_modules
+    rep = Report(prop, "quick", int(os.environ.get("VERIF_SEED", "1")))
+    mod = importlib.import_module(check_modules.MODULES[prop])
+    mod.check(rep, prop, "quick", rep.seed)
+    hit = [k for k, _, _ in rep.violations if k == key] + [k for k, _ in rep.known_hit if k == key]
+    print("REPRODUCED (the quick check reports %s again)" % key if hit else "not reproduced on the current tree")
+    return 1 if hit else 0
